@@ -204,7 +204,8 @@ def finding_of(real: Real, source: str, mapping: dict[str, str], base: dict[str,
 	idents = set(c08gen.IDENT_RE.findall(source))
 	kinds = c08gen.user_identifiers(source)
 	rels = sorted({c08gen.relation_of(b, idents - {a}) for a, b in small.items()})
-	key = f"{'+'.join(rels)}:{aspect}"
+	# aspect class: `output` = the emitted text differs or transpile(r(P)) fails; `symbols` = only keys / type strings differ
+	key = f"{'+'.join(rels)}:{'output' if aspect in ('error', 'diff') else 'symbols'}"
 	what = f"renaming {small} ({', '.join(f'{a}: {kinds.get(a)}' for a in small)}) changes the result: {why}"
 	return Finding(key=key, what=what, replay={'origin': origin, 'source': source, 'renaming': small, 'full_renaming': mapping, 'aspect': aspect, 'why': why})
 
@@ -840,6 +841,129 @@ def stream_merge(ctx: Ctx) -> Stream:
 
 
 # ---------------------------------------------------------------------------------------------
+# search: resolution of every variable reference vs CPython's own binding analysis (symtable)
+
+
+def _symtable_block(table: Any, qual: list[str]) -> Any | None:
+	cur = table
+	for name in qual:
+		nxt = [c for c in cur.get_children() if c.get_name() == name and c.get_type() in ('function', 'class')]
+		if len(nxt) != 1:
+			return None
+		cur = nxt[0]
+	return cur
+
+
+def expected_binding(table: Any, qual: list[str], name: str) -> tuple[str, list[str]] | None:
+	"""('local'|'free'|'global', qualified path of the binding scope) as CPython's symtable sees the reference; None = not decided here."""
+	block = _symtable_block(table, qual)
+	if block is None or block.get_type() != 'function':
+		return None
+	try:
+		sym = block.lookup(name)
+	except KeyError:
+		return None
+	if sym.is_local() or sym.is_parameter():
+		return 'local', qual
+	if sym.is_free():
+		for cut in range(len(qual) - 1, 0, -1):
+			outer = _symtable_block(table, qual[:cut])
+			if outer is None or outer.get_type() != 'function':
+				continue
+			try:
+				s2 = outer.lookup(name)
+			except KeyError:
+				continue
+			if s2.is_local() or s2.is_parameter():
+				return 'free', qual[:cut]
+		return None
+	if sym.is_global():
+		return 'global', []
+	return None
+
+
+def resolution_mismatches(real: Real, source: str) -> tuple[int, list[dict[str, Any]]]:
+	"""Every `Var` reference inside a function body: the key tranp resolves it to vs the binding CPython computes."""
+	import symtable
+
+	import rogw.tranp.syntax.node.definition as defs
+	from rogw.tranp.dsn.module import ModuleDSN
+	from rogw.tranp.semantics.finder import SymbolFinder
+	module = real.load(source)
+	db = real.db()
+	finder = real.app.resolve(SymbolFinder)
+	table = symtable.symtable(source, '<c08>', 'exec')
+	main = real.app.main
+	checked = 0
+	bad: list[dict[str, Any]] = []
+	for node in module.entrypoint.procedural():
+		if type(node) is not defs.Var:
+			continue
+		mod, elems = ModuleDSN.expanded(node.scope)
+		qual = [e for e in elems if '@' not in e]
+		if any(e.startswith(('lambda@', 'list_comp@', 'dict_comp@')) for e in elems):
+			continue
+		exp = expected_binding(table, qual, node.tokens)
+		if exp is None:
+			continue
+		checked += 1
+		rec = RecDB(db)
+		try:
+			raw = finder.find_by_symbolic(rec, node)  # type: ignore[arg-type]
+			key = rec.key_of(raw)
+		except Exception as e:  # noqa: BLE001
+			key = f'<{exc_enum(e)}>'
+		kind, where = exp
+		ok = False
+		if key is not None and not key.startswith('<'):
+			kmod, kelems = ModuleDSN.expanded(key)
+			kplain = [e for e in kelems if '@' not in e]
+			if kind in ('local', 'free'):
+				ok = kmod == main and kplain == [*where, node.tokens]
+			else:
+				ok = kplain == [node.tokens]   # module-level name, import, or a library builtin
+		if not ok:
+			bad.append({'name': node.tokens, 'at': node.full_path, 'scope': node.scope, 'cpython': f"{kind} in {'.'.join(where) or '<module>'}", 'tranp': key})
+	return checked, bad
+
+
+def search_symtable(ctx: Ctx) -> SearchResult:
+	rng = ctx.sub_rng('symtable')
+	res = SearchResult("every variable reference in a function body resolves to the binding CPython's symtable computes, for P and for r(P) (real code, independent oracle)")
+	real = Real(ctx)
+	reserved = real.reserved()
+	hist: Counter[str] = Counter()
+	for i in range(ctx.scale(14, 200)):
+		src, _ = c08gen.generate_nest(random.Random(rng.getrandbits(48)), 1 + i % 3)
+		variants = [('P', src, {})]
+		try:
+			dom = c08gen.renaming_domain(src, reserved)
+			m = c08gen.make_renaming(rng, dom, set(c08gen.IDENT_RE.findall(src)), reserved, len(dom))
+			variants.append(('r(P)', c08gen.rename_source(src, m), m))
+		except Exception:  # noqa: BLE001
+			pass
+		for tag, text, mapping in variants:
+			try:
+				checked, bad = resolution_mismatches(real, text)
+			except Exception as e:  # noqa: BLE001
+				hist[f'{tag}:not-loadable:{exc_enum(e)}'] += 1
+				continue
+			res.cases += 1
+			hist[f'{tag}:references'] += checked
+			if bad and not res.findings:
+				b = bad[0]
+				res.findings.append(Finding(key=f"resolve-vs-symtable:{b['cpython'].split(' ')[0]}",
+					what=f"reference `{b['name']}` in scope {b['scope']} is {b['cpython']} for CPython but tranp resolves it to {b['tranp']} ({tag})",
+					replay={'origin': 'symtable', 'variant': tag, 'source': text, 'renaming': mapping, 'mismatches': bad[:5]}))
+			if len(res.samples) < 1 and checked:
+				res.samples.append({'variant': tag, 'references_checked': checked})
+	res.distinct = res.cases
+	res.histogram = dict(hist)
+	res.note = 'Var nodes whose scope (flow elements removed) names a Python function block; expected = local/parameter of that function, free variable of an enclosing function, or module-level/import/builtin'
+	return res
+
+
+# ---------------------------------------------------------------------------------------------
 # search: the `_counterexample` of Props/C08.lean replayed on the real code
 
 
@@ -925,7 +1049,7 @@ def run(ctx: Ctx) -> int:
 	with ctx.timed('correspondence'):
 		streams = [stream_dsn(ctx), stream_real(ctx), stream_synth(ctx), stream_merge(ctx)]
 	with ctx.timed('search'):
-		searches = [search_rename(ctx), search_sibling_scopes(ctx)]
+		searches = [search_rename(ctx), search_sibling_scopes(ctx), search_symtable(ctx)]
 	return common.finish(ctx, proof, streams, searches,
 		statements=STATEMENTS,
 		partial={
